@@ -70,14 +70,13 @@ func bufConstLen(v ssa.Value) int64 {
 func lanesDesc(ls []lane) string { return describeLanes(ls) }
 
 func checkC17(c *Ctx) {
-	c.explanation = "Static decision on /repo's SSA of: (B1) the frame layout written by remoteParty.send equals the layout read by readMsg (type at [0]; length at [1:5] with the same width and byte order; fixed 5-byte prefix; 32-byte topic right after the prefix; payload last and sized by the transmitted length; header written before payload) and likewise for the handshake length prefix; (G1) the allocation sized by the wire is dominated by the size limit; (W1) the connection is written only by remoteParty.send/Handshake.Write, these run only on the per-destination goroutine started once; (P1) no panic is reachable from Send/sendMessages on account of a peer (only caller-contract panics, listed); (O1) a failed write closes and clears the connection on that arm. Exactly-once/in-order delivery as behaviour and fairness are not decided."
+	c.explanation = "Static decision on /repo's SSA of: (B1) the frame layout written by remoteParty.send equals the layout read by readMsg (type at [0]; length at [1:5] with the same width and byte order; fixed 5-byte prefix; 32-byte topic right after the prefix; payload last and sized by the transmitted length; header written before payload) and likewise for the handshake length prefix; (G1) the allocation sized by the wire is dominated by the size limit; (W1) the connection is written only by remoteParty.send/Handshake.Write, these run only on the per-destination goroutine started once; (P1) no panic is reachable from Send/sendMessages on account of a peer (only caller-contract panics, listed); (O1) a failed write closes and clears the connection on that arm before the invocation is over, the outcome of a write that is followed by another one is tested and nothing is written after a failure; (O2) from the receive that takes a message off the destination's queue every path to the next receive passes the call that writes it. A function of the package that puts its parameter on the connection and reports success only after the write returned nil counts as a write of its argument; the framing function is found by name, else by its role under the writer loop. Exactly-once/in-order delivery as behaviour and fairness are not decided."
 	c.notDecided = "exactly-once / in-order delivery as behaviour, fairness between peers"
 	c.Assume("io.ReadFull fills the buffer completely or fails; tls.Conn.Write writes all bytes or fails; sync.Once")
 	m := c.Mod(ModRoot)
 	if m == nil {
 		return
 	}
-	send := c.mustFunc(m, PkgNet, "remoteParty", "send")
 	readMsg := c.mustFunc(m, PkgNet, "", "readMsg")
 	hsRead := c.mustFunc(m, PkgNet, "Handshake", "Read")
 	hsWrite := c.mustFunc(m, PkgNet, "Handshake", "Write")
@@ -89,6 +88,66 @@ func checkC17(c *Ctx) {
 	startOnce := c.mustFunc(m, PkgNet, "remoteParty", "startOnce")
 	Send := c.mustFunc(m, PkgNet, "SocketRemoteParties", "Send")
 	fConn := c.mustField(m, PkgNet, "remoteParty", "conn")
+	if len(c.fatal) > 0 {
+		return
+	}
+	// functions that put one of their parameters on the connection for their callers
+	wrappers := connWriteWrappers(m.PkgFuncs(PkgNet), fConn)
+	// connWrite: cl puts bytes on the connection — rp.conn.Write(b), or a call of such a function
+	connWrite := func(cl *ssa.Call) (ssa.Value, bool) {
+		if isConnWriteCall(cl, fConn) {
+			return cl.Call.Args[1], true
+		}
+		if w := wrappers[staticCallee(&cl.Call)]; w != nil && w.param < len(cl.Call.Args) {
+			return cl.Call.Args[w.param], true
+		}
+		return nil, false
+	}
+	writesConn := func(g *ssa.Function) bool {
+		for _, f := range deepFuncs(g) {
+			for _, in := range instrsOf(f) {
+				if cl, ok := in.(*ssa.Call); ok {
+					if _, isW := connWrite(cl); isW {
+						return true
+					}
+				}
+			}
+		}
+		return false
+	}
+	// the framing function: by its recorded name, or by its role — the function the writer loop calls
+	// that puts bytes on the connection (not the dialling code)
+	send := m.Func(PkgNet, "remoteParty", "send")
+	if send == nil || send.Name() != "send" {
+		byPrint := send
+		var cands []*ssa.Function
+		for _, in := range instrsDeep(sendMessages) {
+			if cl, ok := in.(*ssa.Call); ok {
+				if g := staticCallee(&cl.Call); g != nil && g != maybeConnect && pkgPathOf(g) == PkgNet && g.Blocks != nil && wrappers[g] == nil && writesConn(g) {
+					dup := false
+					for _, e := range cands {
+						dup = dup || e == g
+					}
+					if !dup {
+						cands = append(cands, g)
+					}
+				}
+			}
+		}
+		if len(cands) == 1 {
+			send = cands[0]
+			c.Note("anchor: remoteParty.send found by role (the function the writer loop calls that writes the connection): %s", FuncName(send))
+		} else if byPrint != nil {
+			send = byPrint
+		} else {
+			c.Fatalf("anchor", "cannot resolve function %s.remoteParty.send in the current tree (by name, fingerprint or role: %d candidates)", PkgNet, len(cands))
+			return
+		}
+	}
+	inSend := map[*ssa.Function]bool{}
+	for _, f := range deepFuncs(send) {
+		inSend[f] = true
+	}
 	fData := c.mustField(m, PkgNet, "outMsg", "data")
 	fTopic := c.mustField(m, PkgNet, "outMsg", "topic")
 	fType := c.mustField(m, PkgNet, "outMsg", "msgType")
@@ -210,13 +269,14 @@ func checkC17(c *Ctx) {
 			if !ok {
 				continue
 			}
-			if o := calleeObj(&cl.Call); o == nil || o.Name() != "Write" || len(cl.Call.Args) != 2 || !isLoadOfField(cl.Call.Args[0], fConn) {
+			wb, isW := connWrite(cl)
+			if !isW {
 				continue
 			}
-			if bufferRoot(resultOf(cl.Call.Args[1])) != w0.Buf {
+			if bufferRoot(resultOf(wb)) != w0.Buf {
 				continue
 			}
-			l := le0.lenOf(cl.Call.Args[1])
+			l := le0.lenOf(wb)
 			// prefixLen + len(topic), possibly followed by the payload in the same write
 			okPrefix = l.K == prefixLen
 			nTopic := 0
@@ -261,13 +321,7 @@ func checkC17(c *Ctx) {
 	if has0 {
 		le := &lenEnv{fn: send, pkgFns: netFns}
 		se := &streamEnv{le: le, header: w0.Buf, isData: func(v ssa.Value) bool { return isLoadOfField(v, fData) }}
-		isWrite := func(cl *ssa.Call) (ssa.Value, bool) {
-			if o := calleeObj(&cl.Call); o != nil && o.Name() == "Write" && len(cl.Call.Args) == 2 && isLoadOfField(cl.Call.Args[0], fConn) {
-				return cl.Call.Args[1], true
-			}
-			return nil, false
-		}
-		paths := se.streamPaths(isWrite)
+		paths := se.streamPaths(connWrite)
 		bad := ""
 		for _, p := range paths {
 			if !(len(p) == 2 && p[0].Src == "header" && p[0].Complete && p[1].Src == "data" && p[1].Complete) {
@@ -419,14 +473,16 @@ func checkC17(c *Ctx) {
 			}
 			// writes on the connection field
 			if o.Name() == "Write" && len(cc.Args) >= 1 && (isLoadOfField(cc.Args[0], fConn) || (cc.IsInvoke() && isLoadOfField(cc.Value, fConn))) {
-				c.Check(fn == send, W1, FuncName(fn), "conn.Write", m.Pos(in.Pos()), "in remoteParty.send", "the connection is written outside remoteParty.send: frames of concurrent senders can interleave")
+				c.Check(inSend[fn] || wrappers[fn] != nil, W1, FuncName(fn), "conn.Write", m.Pos(in.Pos()), "in remoteParty.send", "the connection is written outside remoteParty.send: frames of concurrent senders can interleave")
 			}
 			if cal := staticCallee(cc); cal != nil {
 				switch {
+				case wrappers[cal] != nil:
+					c.Check(inSend[fn], W1, FuncName(fn), "call "+cal.Name(), m.Pos(in.Pos()), "from remoteParty.send", "the function that writes the connection is called outside remoteParty.send: frames of concurrent senders can interleave")
 				case (cal == send || cal == maybeConnect) && cal != sendMessages:
-					c.Check(fn == sendMessages, W1, FuncName(fn), "call "+cal.Name(), m.Pos(in.Pos()), "from the per-destination goroutine sendMessages", cal.Name()+" is called outside the single writer goroutine")
+					c.Check(fn == sendMessages || rootOfHelper(fn) == sendMessages, W1, FuncName(fn), "call "+cal.Name(), m.Pos(in.Pos()), "from the per-destination goroutine sendMessages", cal.Name()+" is called outside the single writer goroutine")
 				case cal == hsWrite:
-					c.Check(fn == maybeConnect, W1, FuncName(fn), "call Handshake.Write", m.Pos(in.Pos()), "from the dialling code of the writer goroutine", "a handshake is written outside the writer goroutine's dialling code")
+					c.Check(fn == maybeConnect || rootOfHelper(fn) == maybeConnect, W1, FuncName(fn), "call Handshake.Write", m.Pos(in.Pos()), "from the dialling code of the writer goroutine", "a handshake is written outside the writer goroutine's dialling code")
 				case cal == sendMessages:
 					_, isGo := in.(*ssa.Go)
 					inOnce := false
@@ -439,6 +495,44 @@ func checkC17(c *Ctx) {
 								}
 							}
 						}
+					}
+					if !inOnce && fn.Parent() == nil && fn.Object() != nil && !fn.Object().Exported() && fn.Signature.Recv() != nil && !implementsSomething(fn) {
+						// a named method that runs only as the argument of Once.Do on a Once of the same
+						// object (p.once.Do(p.spawn)): never called, every method value of it goes to Do
+						uses, all := 0, true
+						for _, g := range netFns {
+							for _, in2 := range instrsOf(g) {
+								if ci, isCI := in2.(ssa.CallInstruction); isCI && staticCallee(ci.Common()) == fn {
+									all = false
+								}
+								mc, isMC := in2.(*ssa.MakeClosure)
+								if !isMC {
+									continue
+								}
+								recv, mo, isB := boundMethod(mc)
+								if !isB || mo != fn.Object() {
+									continue
+								}
+								if mc.Referrers() == nil {
+									continue
+								}
+								for _, r := range *mc.Referrers() {
+									c2, isC := r.(*ssa.Call)
+									if !isC || !isCallTo(&c2.Call, "sync", "Once.Do") {
+										all = false
+										continue
+									}
+									// the Once is a field of the object the method is bound to
+									fa, isFA := c2.Call.Args[0].(*ssa.FieldAddr)
+									if !isFA || !(strip(fa.X) == strip(recv) || sameValue(fa.X, recv)) {
+										all = false
+										continue
+									}
+									uses++
+								}
+							}
+						}
+						inOnce = all && uses > 0
 					}
 					c.Check(isGo && inOnce, W1, FuncName(fn), "spawn of sendMessages", m.Pos(in.Pos()), "go rp.sendMessages() inside onStart.Do", "the writer loop can be started more than once per destination (or not as a goroutine)")
 				}
@@ -453,18 +547,7 @@ func checkC17(c *Ctx) {
 	{
 		const O2 = "C17.O2"
 		c.Rule(O2, "a dequeued message is put on the connection before the next one is taken", 1)
-		writes := func(g *ssa.Function) bool {
-			for _, f := range deepFuncs(g) {
-				for _, in := range instrsOf(f) {
-					if cl, ok := in.(*ssa.Call); ok {
-						if o := calleeObj(&cl.Call); o != nil && o.Name() == "Write" && len(cl.Call.Args) >= 1 && isLoadOfField(cl.Call.Args[0], fConn) {
-							return true
-						}
-					}
-				}
-			}
-			return false
-		}
+		writes := writesConn
 		nRecv := 0
 		for _, in := range instrsDeep(sendMessages) {
 			rv, ok := in.(*ssa.UnOp)
@@ -593,7 +676,7 @@ func checkC17(c *Ctx) {
 		fn := p.Parent()
 		reason := ""
 		switch {
-		case fn == Send:
+		case fn == Send || rootOfHelper(fn) == Send:
 			// only the unknown-destination panic: guarded by !exists of the parties lookup
 			if boolFact(FactsAt(p), false, func(v ssa.Value) bool { _, ok := commaOK(v); return ok }) {
 				reason = "caller contract: destination must be a configured party"
@@ -611,8 +694,102 @@ func checkC17(c *Ctx) {
 	}
 
 	// ------------------------------------------------------------------ O1
-	for _, fn := range []*ssa.Function{send, maybeConnect} {
-		for _, in := range instrsOf(fn) {
+	// O1 (second half): once a write has failed nothing more is written in this invocation — the
+	// outcome of every write that is followed by another one is tested, and no write is reachable from
+	// its failure arm (the connection is gone there: a further write is a nil dereference or puts the
+	// rest of a frame on a connection whose peer has lost the framing)
+	for _, f := range deepFuncs(send) {
+		for _, in := range instrsOf(f) {
+			cw, ok := in.(*ssa.Call)
+			if !ok {
+				continue
+			}
+			if _, isW := connWrite(cw); !isW {
+				continue
+			}
+			// writes that can follow cw in f
+			follows := func(from *ssa.BasicBlock, idx int) *ssa.Call {
+				seen := map[*ssa.BasicBlock]bool{}
+				var found *ssa.Call
+				var dfs func(b *ssa.BasicBlock, i int)
+				dfs = func(b *ssa.BasicBlock, i int) {
+					if found != nil {
+						return
+					}
+					for ; i < len(b.Instrs); i++ {
+						if c2, ok := b.Instrs[i].(*ssa.Call); ok && c2 != cw {
+							if _, isW := connWrite(c2); isW {
+								found = c2
+								return
+							}
+						}
+					}
+					for _, sb := range b.Succs {
+						if !seen[sb] {
+							seen[sb] = true
+							dfs(sb, 0)
+						}
+					}
+				}
+				dfs(from, idx)
+				return found
+			}
+			if follows(cw.Block(), instrIndex(cw)+1) == nil {
+				continue // the last write of the invocation
+			}
+			tested := false
+			var after *ssa.Call
+			for _, b := range f.Blocks {
+				if len(b.Instrs) == 0 {
+					continue
+				}
+				iff, ok := b.Instrs[len(b.Instrs)-1].(*ssa.If)
+				if !ok {
+					continue
+				}
+				fc := factOf(Guard{iff, true})
+				fail := -1
+				switch {
+				case fc.Op == 0 && strip(fc.Bool) == ssa.Value(cw):
+					fail = 1
+					if !fc.True {
+						fail = 0
+					}
+				case (fc.Op == token.NEQ || fc.Op == token.EQL) && (isNilConst(fc.Y) || isNilConst(fc.X)):
+					x := fc.X
+					if isNilConst(x) {
+						x = fc.Y
+					}
+					ev := errValueOf(x)
+					if ex, isEx := ev.(*ssa.Extract); isEx {
+						ev = ex.Tuple
+					}
+					if ev == ssa.Value(cw) {
+						fail = 0
+						if fc.Op == token.EQL {
+							fail = 1
+						}
+					}
+				}
+				if fail < 0 {
+					continue
+				}
+				tested = true
+				if w2 := follows(b.Succs[fail], 0); w2 != nil {
+					after = w2
+				}
+			}
+			c.Check(tested && after == nil, O1, FuncName(f), "nothing is written after the failure of "+render(cw), m.Pos(cw.Pos()), "the outcome is tested and no write is reachable from the failure arm",
+				"the outcome of a write is ignored (or its failure arm goes on writing): after a failed write the connection is closed and cleared, so the next write of the same invocation dereferences a nil connection or continues a frame the peer can no longer delimit")
+		}
+	}
+	o1Fns := []*ssa.Function{send, maybeConnect}
+	for g := range wrappers {
+		o1Fns = append(o1Fns, g)
+	}
+	sort.Slice(o1Fns[2:], func(i, j int) bool { return FuncName(o1Fns[2+i]) < FuncName(o1Fns[2+j]) })
+	for _, fn := range o1Fns {
+		for _, in := range instrsDeep(fn) {
 			cl, ok := in.(*ssa.Call)
 			if !ok {
 				continue
@@ -633,19 +810,33 @@ func checkC17(c *Ctx) {
 				}
 			}
 			// find the failing arm
-			okArm := false
-			for _, b := range fn.Blocks {
+			okArm, arms := false, 0
+			var blocks []*ssa.BasicBlock
+			for _, df := range deepFuncs(fn) {
+				blocks = append(blocks, df.Blocks...)
+			}
+			for _, b := range blocks {
+				if len(b.Instrs) == 0 {
+					continue
+				}
 				iff, ok := b.Instrs[len(b.Instrs)-1].(*ssa.If)
 				if !ok {
 					continue
 				}
 				f := factOf(Guard{iff, true})
-				if f.Op != token.NEQ || strip(f.X) != errv || !isNilConst(f.Y) {
+				if isNilConst(f.X) {
+					f.X, f.Y = f.Y, f.X
+				}
+				if (f.Op != token.NEQ && f.Op != token.EQL) || !isNilConst(f.Y) || (strip(f.X) != errv && resultOf(f.X) != errv) {
 					continue
+				}
+				fail := 0 // successor taken when the write failed
+				if f.Op == token.EQL {
+					fail = 1
 				}
 				// on the failing arm every path to the return closes the connection and clears the field
 				// (directly or through a helper that always does)
-				closed := passesOnEdge(b, 0, func(x ssa.Instruction) bool {
+				closed := passesOnEdgeInv(b, fail, func(x ssa.Instruction) bool {
 					c2, ok := x.(*ssa.Call)
 					if !ok {
 						return false
@@ -653,7 +844,7 @@ func checkC17(c *Ctx) {
 					o2 := calleeObj(&c2.Call)
 					return o2 != nil && o2.Name() == "Close" && len(c2.Call.Args) > 0 && isLoadOfField(c2.Call.Args[0], fConn)
 				})
-				cleared := passesOnEdge(b, 0, func(x ssa.Instruction) bool {
+				cleared := passesOnEdgeInv(b, fail, func(x ssa.Instruction) bool {
 					st, ok := x.(*ssa.Store)
 					if !ok {
 						return false
@@ -661,7 +852,8 @@ func checkC17(c *Ctx) {
 					fa, ok := st.Addr.(*ssa.FieldAddr)
 					return ok && fieldOfAddr(fa) == fConn && isNilConst(st.Val)
 				})
-				okArm = closed && cleared
+				arms++
+				okArm = (arms == 1 || okArm) && closed && cleared
 			}
 			c.Check(okArm, O1, FuncName(fn), "failure arm of "+render(cl), m.Pos(cl.Pos()), "conn.Close() and conn = nil on the error arm", "after a failed write the broken connection is kept: the reconnect loop never re-dials and the peer stays cut off")
 		}
@@ -705,4 +897,106 @@ func sl17(m *Module) *Slicer {
 	s := NewSlicer(m, PkgNet)
 	sl17cache[m] = s
 	return s
+}
+
+// connWriter is an own function of package net that puts one of its parameters on the destination's
+// connection and tells its caller whether that worked — `func (rp *remoteParty) write(b []byte) bool`
+// (or `error`): exactly one Write on remoteParty.conn, of that parameter, and every return that
+// reports success is reached only after that Write returned a nil error.
+type connWriter struct {
+	fn    *ssa.Function
+	param int    // index of the bytes parameter
+	kind  string // "bool" | "error": how success is reported
+	write *ssa.Call
+}
+
+func isConnWriteCall(cl *ssa.Call, fConn *types.Var) bool {
+	o := calleeObj(&cl.Call)
+	return o != nil && o.Name() == "Write" && len(cl.Call.Args) == 2 && isLoadOfField(cl.Call.Args[0], fConn)
+}
+
+func connWriteWrappers(fns []*ssa.Function, fConn *types.Var) map[*ssa.Function]*connWriter {
+	out := map[*ssa.Function]*connWriter{}
+	errT := types.Universe.Lookup("error").Type()
+	for _, fn := range fns {
+		if fn.Blocks == nil || fn.Parent() != nil || helperCall(fn) != nil {
+			continue // literals and transparent helpers are analysed in place
+		}
+		var w *ssa.Call
+		n := 0
+		for _, in := range instrsOf(fn) {
+			if cl, ok := in.(*ssa.Call); ok && isConnWriteCall(cl, fConn) {
+				w = cl
+				n++
+			}
+		}
+		if n != 1 {
+			continue
+		}
+		noParamLook++
+		bp, isP := strip(w.Call.Args[1]).(*ssa.Parameter)
+		noParamLook--
+		if !isP || bp.Parent() != fn {
+			continue
+		}
+		res := fn.Signature.Results()
+		if res.Len() != 1 {
+			continue
+		}
+		kind := ""
+		if b, ok := res.At(0).Type().Underlying().(*types.Basic); ok && b.Kind() == types.Bool {
+			kind = "bool"
+		} else if types.Identical(res.At(0).Type(), errT) {
+			kind = "error"
+		}
+		if kind == "" {
+			continue
+		}
+		var errv ssa.Value
+		if w.Referrers() != nil {
+			for _, r := range *w.Referrers() {
+				if e, ok := r.(*ssa.Extract); ok && e.Index == 1 {
+					errv = e
+				}
+			}
+		}
+		if errv == nil {
+			continue
+		}
+		wrote := func(r *ssa.Return) bool {
+			return instrDominates(w, r) && hasFact(FactsAt(r), func(f Fact) bool {
+				return f.Op == token.EQL && isNilConst(f.Y) && errValueOf(f.X) == errv
+			})
+		}
+		ok := true
+		nSucc := 0
+		for _, in := range instrsOf(fn) {
+			r, isR := in.(*ssa.Return)
+			if !isR {
+				continue
+			}
+			rv := retResult(r, 0)
+			switch kind {
+			case "bool":
+				k, isK := rv.(*ssa.Const)
+				if !isK || k.Value == nil || k.Value.Kind() != constant.Bool {
+					ok = false
+				} else if constant.BoolVal(k.Value) {
+					nSucc++
+					ok = ok && wrote(r)
+				}
+			case "error":
+				if isNilConst(rv) {
+					nSucc++
+					ok = ok && wrote(r)
+				} else if errValueOf(rv) == errv && instrDominates(w, r) {
+					nSucc++ // `return err` of the write itself: nil exactly when it worked
+				}
+			}
+		}
+		if ok && nSucc > 0 {
+			out[fn] = &connWriter{fn: fn, param: paramIndex(bp), kind: kind, write: w}
+		}
+	}
+	return out
 }
